@@ -131,6 +131,14 @@ class C13(Check):
                             'func_name': rng.choice(['vf', 'vf', f'f{wid}'])})
                 if rng.random() < 0.6:
                     ops.append({'wf': wid, 'op': 'probe', 'handle': h})
+            if stratum != 'S-fortran' and rng.random() < 0.25 and net.inst:
+                # an extrinsic input (generated input nodes/operators get process-wide unique labels)
+                (inode, iop), iinst = rng.choice(list(net.inst.items()))
+                n_in = 12 if kind == 'run' else 8
+                if kind == 'run':
+                    n_in = int(round(kw['T'] / kw['dt']))
+                ops[-1 if ops[-1]['op'] != 'probe' else -2].setdefault('input', {
+                    'target': f"{inode}/{iop}/{models.LIB[iinst['lib']]['in']}", 'n': n_in, 'amp': rng.choice([0.5, 1.0, -0.25])})
             consumed = kw['in_place']
             if not kw['clear'] and rng.random() < (0.3 if stratum != 'S-noclear' else 0.05) and kw['in_place']:
                 ops.append({'wf': wid, 'op': 'clear', 'obj': M})
